@@ -347,6 +347,8 @@ class BddExt(Extension):
         if base.ty == 'bnode' and attr == '__invert__':
             # dynamic dispatch: both bodies (terminal / non-terminal) are verified against the same clauses
             return E.call_contract(ex, 'BDDNonTerminalNode.__invert__', [base] + args, kwargs, path, node)
+        if base.ty == 'bnode' and attr in ('descendents', 'variables') and not args:
+            return E.call_contract(ex, 'BDDNode.%s' % attr, [base], kwargs, path, node)
         if base.ty == 'bnode' and attr == 'restrict':
             return E.call_contract(ex, 'BDDNode.restrict', [base] + args, kwargs, path, node)
         if base.ty == 'bnode' and attr == 'respect_ordering':
@@ -946,6 +948,154 @@ def install(E):
         requires=lambda c: node_state(c.h0) + [('self_is_an_OBDD', obdd_ok(c.h0, c.self.t))],
         ensures=oinv_ens, frame=wrapper_frame, touches=set(OT),
         hints=dict(common, may_raise=('ValueError',), dict_kind_default='refdict'), raise_unchanged=False, owner='C17'), OFILE)
+
+    # -- descendents / variables(): the nodes reachable through low/high, and the variables they test -------------
+    def nonterm(h, a):
+        return z3.Not(term(h, a))        # what the code tests: isinstance(node, BDDNonTerminalNode)
+
+    def chk(c):
+        """the `checked` argument as a predicate (nothing when None)"""
+        a = c.checked
+        if a.ty == 'opt':
+            return lambda h, x: z3.And(z3.Not(a.x[0]), h['refsets'][a.x[1].t][x])
+        if a.ty == 'none':
+            return lambda h, x: z3.BoolVal(False)
+        return lambda h, x: h['refsets'][a.t][x]
+
+    def children_in(h, A, ok, name='a'):
+        """both children of every non-terminal member of A satisfy ok (one clause, triggered by membership)"""
+        a = R(name)
+        return z3.ForAll([a], z3.Implies(z3.And(A[a], nonterm(h, a)), z3.And(ok(low(h, a)), ok(high(h, a)))), patterns=[A[a]])
+
+    def closed_from(h, root_, Z, ck):
+        return z3.And(z3.Implies(z3.Not(ck(h, root_)), Z[root_]),
+                      children_in(h, Z, lambda b: z3.Or(Z[b], ck(h, b))))
+
+    def desc_skolems(c):
+        c.sk['Z'] = hp.fresh('Z', hp.SetR)
+
+    def desc_req(c):
+        out = [('root_valid', valid(c.h0, c.root.t))]
+        if c.checked.ty == 'opt':
+            out.append(('checked_valid', z3.Implies(z3.Not(c.checked.x[0]), z3.And(c.checked.x[1].t >= 0, c.checked.x[1].t < c.h0.alloc))))
+        if c.side == 'callee':
+            out.append(('Z_contains_root_and_is_closed', closed_from(c.h0, c.root.t, c.sk['Z'], chk(c))))     # hypothesis of `least`
+        return out
+
+    def desc_ens(c):
+        h0, h1, r = c.h0, c.h1, c.res.t
+        D = h1['refsets'][r]
+        ck = chk(c)
+        a, b = R('a'), R('b')
+        out = [('fresh', z3.And(r >= h0.alloc, r < h1.alloc)),
+               ('contains_root', z3.Implies(z3.Not(ck(h0, c.root.t)), D[c.root.t])),
+               ('closed_under_children', children_in(h0, D, lambda b_: z3.Or(D[b_], ck(h0, b_)))),
+               ('disjoint_from_checked', z3.ForAll([a], z3.Implies(D[a], z3.Not(ck(h0, a)))))]
+        if c.side == 'callee':
+            out.append(('least', z3.ForAll([a], z3.Implies(D[a], c.sk['Z'][a]))))
+        else:
+            Z = z3.Const('Z!least', hp.SetR)
+            out.append(('least', z3.ForAll([Z], z3.Implies(closed_from(h0, c.root.t, Z, ck), z3.ForAll([a], z3.Implies(D[a], Z[a]))))))
+        return out
+
+    def desc_l1(lc):
+        c, h, he = lc.c, lc.h, lc.h_entry
+        ck = chk(c)
+        D = h['refsets'][lc.env['desc'].t]
+        S = h['refsets'][lc.env['stack'].t]
+        Z = c.sk['Z']
+        a, b = R('a'), R('b')
+        dref, sref_ = lc.env['desc'].t, lc.env['stack'].t
+        from .contracts_graph import frame
+        return [('own_objects', z3.And(dref >= c.h0.alloc, dref < he.alloc, sref_ >= c.h0.alloc, sref_ < he.alloc, dref != sref_)),
+                # (`checked = set()` when None was passed: the local set is the empty one, and nothing is added to it)
+                ('checked_is_the_argument', z3.ForAll([a], h['refsets'][lc.env['checked'].t][a] == ck(c.h0, a),
+                                                      patterns=[h['refsets'][lc.env['checked'].t][a]])),
+                ('checked_is_not_own', z3.And(lc.env['checked'].t != dref, lc.env['checked'].t != sref_)),
+                ('desc_in_Z', z3.ForAll([a], z3.Implies(D[a], Z[a]))),
+                ('stack_in_Z_or_checked', z3.ForAll([a], z3.Implies(S[a], z3.Or(Z[a], ck(c.h0, a))))),
+                ('root_seen', z3.Or(D[c.root.t], ck(c.h0, c.root.t), S[c.root.t])),
+                ('children_pending', children_in(c.h0, D, lambda b_: z3.Or(D[b_], ck(c.h0, b_), S[b_]))),
+                ('desc_not_checked', z3.ForAll([a], z3.Implies(D[a], z3.Not(ck(c.h0, a))))),
+                ('alloc', h.alloc >= he.alloc)] + frame(c.h0, h, c.h0.alloc)
+
+    E.register(Contract(
+        'descendents', 'bdd', [('root', 'bnode'), ('checked', 'opt:refset')], ret='refset',
+        requires=desc_req, ensures=desc_ens, skolems=desc_skolems, loops={1: desc_l1}, loop_touches={1: {'refsets'}},
+        touches={'refsets', 'b_node'}, hints=dict(common, set_kind_default='refset', list_kind='reflist'), owner='C17',
+        note='the least set that contains root (unless checked) and is closed under low/high outside `checked`; termination not claimed'), FILE)
+
+    def ndesc_ens(c):
+        h0, h1, r = c.h0, c.h1, c.res.t
+        D = h1['refsets'][r]
+        a, b = R('a'), R('b')
+        nock = lambda h, x: z3.BoolVal(False)       # noqa
+        out = [('fresh', z3.And(r >= h0.alloc, r < h1.alloc)),
+               ('contains_self', D[c.self.t]),
+               ('closed_under_children', children_in(h0, D, lambda b_: D[b_]))]
+        if c.side == 'callee':
+            out.append(('least', z3.ForAll([a], z3.Implies(D[a], c.sk['Z'][a]))))
+        else:
+            Z = z3.Const('Z!least', hp.SetR)
+            out.append(('least', z3.ForAll([Z], z3.Implies(closed_from(h0, c.self.t, Z, nock), z3.ForAll([a], z3.Implies(D[a], Z[a]))))))
+        return out
+
+    def ndesc_req(c):
+        out = [('self_valid', valid(c.h0, c.self.t))]
+        if c.side == 'callee':
+            out.append(('Z_contains_self_and_is_closed', closed_from(c.h0, c.self.t, c.sk['Z'], lambda h, x: z3.BoolVal(False))))
+        return out
+
+    def ndesc_hint(cc, c, path):
+        # instance of the callee's `least` at this function's own skolem set
+        Z = cc.sk['Z']
+        D = c.h1['refsets'][c.res.t]
+        a = R('a')
+        return [z3.Implies(closed_from(c.h0, c.root.t, Z, chk(c)), z3.ForAll([a], z3.Implies(D[a], Z[a])))]
+
+    E.register(Contract(
+        'BDDNode.descendents', 'bdd', [('self', 'bnode')], ret='refset',
+        requires=ndesc_req, ensures=ndesc_ens, skolems=desc_skolems,
+        touches={'refsets', 'b_node'}, hints=dict(common, set_kind_default='refset', call={'descendents': ndesc_hint}), owner='C17'), FILE)
+
+    def vars_ens(c):
+        h0, h1 = c.h0, c.h1
+        Rv = h1.set_of(c.res.t)
+        x = hp.fresh('x!v', H)
+        n = R()
+        D = c.sk.get('D')
+        out = [('fresh', z3.And(c.res.t >= h0.alloc, c.res.t < h1.alloc))]
+        if c.side == 'callee':
+            Z = c.sk['Z']
+            # every reported variable is tested by a node of EVERY closed set that contains self (so: of the least one) ...
+            out.append(('only_variables_of_reachable_nodes',
+                        z3.ForAll([x], z3.Implies(Rv[x], z3.Exists([n], z3.And(Z[n], nonterm(h0, n), var(h0, n) == x))))))
+            # ... and every variable tested by a node of some closed set containing self (the one descendents returned) is reported
+            if D is not None:
+                out.append(('all_variables_of_reachable_nodes',
+                            z3.And(D[c.self.t], children_in(h0, D, lambda b_: D[b_]),
+                                   z3.ForAll([n], z3.Implies(z3.And(D[n], nonterm(h0, n)), Rv[var(h0, n)])))))
+        return out
+
+    def vars_req(c):
+        out = [('self_valid', valid(c.h0, c.self.t))]
+        if c.side == 'callee':
+            out.append(('Z_contains_self_and_is_closed', closed_from(c.h0, c.self.t, c.sk['Z'], lambda h, x: z3.BoolVal(False))))
+        return out
+
+    def vars_hint(cc, c, path):
+        Z = cc.sk['Z']
+        D = c.h1['refsets'][c.res.t]
+        cc.sk['D'] = D
+        a = R('a')
+        return [z3.Implies(closed_from(c.h0, c.self.t, Z, lambda h, x: z3.BoolVal(False)), z3.ForAll([a], z3.Implies(D[a], Z[a])))]
+
+    E.register(Contract(
+        'BDDNode.variables', 'bdd', [('self', 'bnode')], ret='set',
+        requires=vars_req, ensures=vars_ens, skolems=desc_skolems,
+        touches={'refsets', 'b_node', 'sets'}, hints=dict(common, call={'BDDNode.descendents': vars_hint}), owner='C17',
+        note='the result is exactly the set of variables tested by the nodes reachable from self through low/high '
+             '(sound w.r.t. every closed set containing self, complete w.r.t. the closed set descendents() returns)'), FILE)
 
     def orestrict_ens(c):
         h0, h1, r = c.h0, c.h1, c.res.t
